@@ -44,6 +44,13 @@ Checks(e) ==
   <<"local_inmotif_clustering(c)", Vec(e, "local_inmotif_clustering(c)", LAMBDA k : WInMotif(G, R, k))>>,
   <<"local_outmotif_clustering(c)", Vec(e, "local_outmotif_clustering(c)", LAMBDA k : WOutMotif(G, R, k))>>,
   <<"path_lengths(c)", Mat(e, "path_lengths(c)", LAMBDA a, b : IF WD[a][b] >= INFD THEN INF ELSE S * WD[a][b])>>,
+  \* the path-length family with link lengths: mean over the pairs with a path; closeness of the nodes that
+  \* reach every other node; efficiency = mean of 1/d over all ordered pairs
+  <<"average_path_length(c)", (n >= 2 /\ APLDefined(WD)) => Sca(e, "average_path_length(c)", AvgPathLength(WD))>>,
+  <<"closeness(c)", (n >= 2 /\ Has(e, "closeness(c)")) =>
+        /\ Len(e.m["closeness(c)"]) = n
+        /\ \A k \in 1..n : (\A j \in 1..n : Reach(WD, k, j)) => Close(e.m["closeness(c)"][k], Closeness(WD, k), Tol)>>,
+  <<"global_efficiency(c)", n >= 2 => Sca(e, "global_efficiency(c)", GlobalEfficiency(WD))>>,
   <<"eigenvector_centrality(residual)", (und /\ Connected(D) /\ n >= 3 /\ Has(e, "eigenvector_centrality")) =>
         EigenResidualOK(G, e.m["eigenvector_centrality"], 60)>>,
   <<"pagerank(residual)", Has(e, "pagerank") => PageRankResidualOK(G, e.m["pagerank"], 40)>>,
